@@ -506,13 +506,30 @@ def s_closures(ctx, impl):
                 if x not in out:
                     out.append(x)
                     todo.append(x)
-    for g in [impl] + list(out):
-        for s_ in ctx.cg.calls_in(g):
-            for c in s_.callees:
-                if c.parent is None and c not in out and c is not impl and \
-                        c.module.name.startswith('placement.handlers') and \
-                        ctx.effects.scope_kind(c):
-                    out.append(c)
+    frontier = [impl] + list(out)
+    for _depth in range(3):
+        nxt = []
+        for g in frontier:
+            for s_ in ctx.cg.calls_in(g):
+                for c in s_.callees:
+                    if c.parent is not None or c in out or c is impl or \
+                            not c.module.name.startswith(
+                                'placement.handlers'):
+                        continue
+                    if ctx.effects.scope_kind(c):
+                        out.append(c)
+                    elif c.module is impl.module and \
+                            c.node.name.startswith('_') and any(
+                                ctx.effects.scope_kind(d) and
+                                d.module is impl.module
+                                for s2 in ctx.cg.calls_in(c)
+                                for d in s2.callees):
+                        # a private helper of the handler's module that
+                        # opens the transaction: the closure that used to
+                        # wrap the write, moved to module level
+                        out.append(c)
+                        nxt.append(c)
+        frontier = nxt
     return out
 
 
